@@ -231,6 +231,10 @@ def trans(potential_forms, potential_form_builder):
   if len(second_form.parameters) != 1:
     raise ConfigurationException("the second parameter to trans(), 'as.constant' should have exactly one parameter defining shift. {} parameters found.".format(len(second_form.parameters)))
 
+  if not getattr(second_form, "next", None) is None:
+    # e.g. trans(f, as.constant 1 >2 as.constant 3): the shift is one number, not a function of r
+    raise ConfigurationException("the second argument to the trans() potential modifier must be a single 'as.constant', further ranges found")
+
   logger = logging.getLogger(__name__).getChild("trans")
 
 
